@@ -24,7 +24,7 @@ CF = {None: 0, "above": 1, "below": 2}
 KEYC = {"up": 1, "down": 2, "j": 3, "k": 4, "home": 5, "end": 6, "page up": 7, "page down": 8}
 VALC = {"top": [1], "middle": [2], "bottom": [3]}
 COLS = 8
-EDITS = ("insert", "delete", "replace", "reflow", "clear", "imul", "iadd", "setslice", "reverse", "sort")
+EDITS = ("insert", "delete", "replace", "reflow", "clear", "imul", "iadd", "setslice", "delslice", "reverse", "sort")
 REAL_COLS = 12
 WRITERS = ("__init__", "shift_focus", "change_focus")
 VIEW_ATTRS = ("offset_rows", "inset_fraction")
@@ -340,6 +340,15 @@ class C07(core.Check):
             for w, sp in zip(list(body), a[1]):
                 if hasattr(w, "reflow"):
                     w.reflow(*sp)
+        elif k == "delslice":
+            # deletion of a slice, extended slices (step other than 1) included
+            sl = slice(a[1], a[2], a[3])
+            if hasattr(body, "replace_all"):
+                l = list(body)
+                del l[sl]
+                body.replace_all(l)
+            else:
+                del body[sl]
         elif k in ("imul", "iadd", "setslice", "reverse", "sort"):
             new = []
             if k == "iadd":
@@ -399,9 +408,15 @@ class C07(core.Check):
             except core.MachineryError:
                 raise
             except Exception as e:    # noqa: BLE001 - every exception class is an observable here
-                out.update(err=norm_err(type(e).__name__), exc=type(e).__name__, where="action",
-                           msg=re.sub(r"-?\d+", "N", str(e))[:80])
-                break
+                if a[0] in EDITS:
+                    # a walker edit that raises is the walker's business (C16); the list box goes on with whatever
+                    # the walker holds now, and has to show that
+                    act = None
+                    out["edit_exc"] = type(e).__name__
+                else:
+                    out.update(err=norm_err(type(e).__name__), exc=type(e).__name__, where="action",
+                               msg=re.sub(r"-?\d+", "N", str(e))[:80])
+                    break
             cur_ws = list(body)
             ids = [getattr(w, "n", None) for w in cur_ws]
             ax["sa"] = self.lb_state(lb, body)
@@ -579,6 +594,8 @@ class C07(core.Check):
                             break
                     else:
                         st = r.get("sa")
+                    if "edit_exc" in r:
+                        out["edit_exc"] = r["edit_exc"]
                     out["fa"] = st[0]
                     out["sa"] = st
                     if a[0] in ("key", "mouse"):
@@ -725,6 +742,10 @@ class C07(core.Check):
         for stp, r in zip(case["steps"], res.get("steps", [])):
             a = stp["a"]
             inc("action:" + a[0] + (":" + str(a[1]) if a[0] == "key" else ""))
+            if "edit_exc" in r:
+                inc(f"walker_edit_raised:{a[0]}:{r['edit_exc']}")
+            if a[0] == "delslice" and a[3] not in (1, None):
+                inc("extended_slice_deletion")
             if "err" in r:
                 inc(f"raised:{r['where']}:{a[0]}{':' + str(a[1]) if a[0] == 'key' else ''}:{r.get('exc')}"
                     + (f":{r.get('msg')}" if a[0] in ("key", "mouse") else ""))
@@ -818,8 +839,11 @@ class C07(core.Check):
             elif x < 0.905 and kind == "item":
                 a = ["reflow", [self.rand_spec(rng, hmax) for _ in range(m)]]
             elif x < 0.92:
-                y = rng.randrange(5)
-                if y == 0:
+                y = rng.randrange(7)
+                if y >= 5:
+                    a = ["delslice", rng.choice([None, None, 0, 1, 2, -1]), rng.choice([None, None, None, m, -1, 2]),
+                         rng.choice([2, 2, 3, -1, -2, -3, 1])]
+                elif y == 0:
                     a = ["imul", rng.choice([0, 1, 2, 2, 3])]
                 elif y == 1:
                     a = ["iadd", [self.rand_spec(rng, hmax, kind) for _ in range(rng.choice([0, 1, 2]))]]
@@ -857,8 +881,10 @@ class C07(core.Check):
                 cur = cur + a[1]
             elif a[0] == "setslice":
                 cur[a[1]:a[2]] = a[3]
+            elif a[0] == "delslice":
+                del cur[slice(a[1], a[2], a[3])]
             steps.append(self.step(a, maxrow, ff))
-            if a[0] in ("set_focus", "valign", "insert", "delete", "replace", "clear", "imul", "iadd", "setslice") and rng.random() < 0.25:
+            if a[0] in ("set_focus", "valign", "insert", "delete", "replace", "clear", "imul", "iadd", "setslice", "delslice") and rng.random() < 0.25:
                 steps[-1]["nr"] = 1
         case["steps"] = steps
         return case
@@ -920,8 +946,15 @@ class C07(core.Check):
         fresh = [[2, 1, None], [1, 0, None]]
         for wk in ("sflw", "slw", "custom"):
             for kind in ("item", "real"):
-                for n in (1, 2, 4):
+                for n in (1, 2, 4, 5):
                     items = [[rng.choice([1, 1, 2]), rng.choice([0, 1]), None] for _ in range(n)]
+                    # slice deletions (extended ones included) for every focus position
+                    for st, sp, stp in ((None, None, 2), (1, None, 2), (None, None, 3), (None, None, -2), (None, None, -1),
+                                        (1, None, 3), (None, -1, 2), (0, 2, 1), (n - 1, None, 1), (-2, None, 1)):
+                        for f in range(n):
+                            yield {"kind": kind, "walker": wk, "items": items, "focus": f,
+                                   "steps": [self.step(["none"], 4), self.step(["delslice", st, sp, stp], 4),
+                                             self.step(["key", "down"], 4), self.step(["key", "up"], 4)]}
                     edits = [["imul", 0], ["imul", 2], ["imul", 3], ["iadd", fresh], ["iadd", []],
                              ["setslice", 0, 1, fresh], ["setslice", n, n, fresh], ["setslice", 0, n, []],
                              ["reverse"], ["sort", 1], ["insert", 0, fresh[0]], ["insert", n, fresh[1]],
